@@ -201,12 +201,13 @@ static void c10_pair_child(const void *job, size_t n) {
 	hx_hash_t h; hx_hash_init(&h); long npairs = 0;
 	for (int k = from; k < from + count && k < NE * NE; k++) {
 		pair_a = k / NE; pair_b = k % NE;
-		char what[200]; snprintf(what, sizeof what, "H5 %s || %s || receiver(batch %s)", entry_name(pair_a), entry_name(pair_b), pair_rx_mode == 2 ? "before and after" : pair_rx_mode ? "last" : "first");
+		char what[200]; snprintf(what, sizeof what, "H5 %s || %s || receiver(batch %s)", entry_name(pair_a), entry_name(pair_b), pair_rx_mode == 3 ? "first, action-id counter about to wrap" : pair_rx_mode == 2 ? "before and after" : pair_rx_mode ? "last" : "first");
 		hx_set_context(what); res_progress(k);
 		vs_sleep_us(2500000); hx_quiesce();
 		san_reset(); san_tsan_ignore(0);
+		if (pair_rx_mode == 3) { extern unsigned int bidib_get_and_incr_action_id(void); while (bidib_get_and_incr_action_id() != (single ? 9998u : 9990u)); }     /* both calls draw their action ids across the counter's wrap-around (9999 -> 1) */
 		if (pair_rx_mode == 2) { queue_rx_batch(); vs_point(); hx_quiesce(); }      /* populate first, so that the update AFTER the calls replaces state the calls have read */
-		if (pair_rx_mode == 0) queue_rx_batch();
+		if (pair_rx_mode == 0 || pair_rx_mode == 3) queue_rx_batch();
 		vs_window(1);
 		int t1 = vs_spawn(pair_t, (void *) (intptr_t) 0), t2 = vs_spawn(pair_t, (void *) (intptr_t) 1);
 		vs_join_tid(t1); vs_join_tid(t2); hx_quiesce();
@@ -330,7 +331,7 @@ static void padd(long from, long count, int mode) { if (count <= 0) return; if (
 static size_t pair_payload(const pjob_t *j, uint8_t *payload) { memcpy(payload, &j->from, 4); memcpy(payload + 4, &j->count, 4); payload[8] = j->rx_mode; payload[9] = j->single; return 10; }
 static size_t pair_gen(long idx, uint8_t *payload, char *human, size_t hn) {
 	pjob_t *j = &pjobs[pround_base + idx]; int NE = N_HL + N_LL;
-	snprintf(human, hn, "%spairs %d..%d (first: %s || %s) receiver batch %s", j->count == 1 ? "single case " : "", j->from, j->from + j->count - 1, entry_name(j->from / NE), entry_name(j->from % NE), j->rx_mode == 2 ? "before and after" : j->rx_mode ? "last" : "first");
+	snprintf(human, hn, "%spairs %d..%d (first: %s || %s) receiver batch %s", j->count == 1 ? "single case " : "", j->from, j->from + j->count - 1, entry_name(j->from / NE), entry_name(j->from % NE), j->rx_mode == 3 ? "first, action-id counter about to wrap" : j->rx_mode == 2 ? "before and after" : j->rx_mode ? "last" : "first");
 	return pair_payload(j, payload);
 }
 static long presume[4096][2]; static int npresume;
@@ -351,6 +352,8 @@ static void run_pairs(int thorough, int tsan, long *execs, long *states, long *t
 	 * something after it has dropped the lock is only unordered against an update that comes later and replaces what it read
 	 * (happens-before needs no real overlap) */
 	for (int a = 0; a < NE; a++) if (!excluded_entry(a)) { padd((long) a * NE + a, 1, 2); planned++; }
+	/* every high-level call paired with itself while the action-id counter wraps (a path taken once in 9999 draws) */
+	for (int a = 0; a < N_HL; a++) if (!excluded_entry(a)) { padd((long) a * NE + a, 1, 3); planned++; }
 	/* split rows into batches of 48 pairs */
 	{ long n0 = npjobs; pjob_t *old = malloc(sizeof(pjob_t) * (size_t) n0); memcpy(old, pjobs, sizeof(pjob_t) * (size_t) n0); npjobs = 0;
 	  for (long i = 0; i < n0; i++) for (long s0 = 0; s0 < old[i].count; s0 += 48) padd(old[i].from + s0, old[i].count - s0 < 48 ? old[i].count - s0 : 48, old[i].rx_mode); free(old); }
@@ -367,6 +370,15 @@ static void run_pairs(int thorough, int tsan, long *execs, long *states, long *t
 	*states += rep_get("api_pairs"); *transitions += rep_get("api_pairs") * 2;
 	rep_note("H5 API pairs: %d catalogue calls (%d high-level/util incl. every getter, %d low-level), %ld ordered pairs planned, %ld executed (each thread runs its call with every argument class; receiver applies a %d-message feedback batch concurrently; %s)",
 	         NE - 1, N_HL - 1, N_LL, planned, rep_get("api_pairs"), N_RXB, thorough ? "receiver batch first and last" : "receiver batch first");
+	/* both tiers: a pair of DIFFERENT high-level setters (different state locks, so they really overlap) explored with one
+	 * preemption while the action-id counter wraps — what is shared between unrelated setters is the id counter and the send path */
+	{ static const char *WR[4] = {"bidib_set_train_speed", "bidib_switch_point", "bidib_set_peripheral", "bidib_set_train_speed"}; long sched = 0;
+	  for (int k = 0; k < 1; k++) { int a = -1, b = -1; for (int e = 0; e < N_HL; e++) { if (!strcmp(entry_name(e), WR[k])) a = e; if (!strcmp(entry_name(e), WR[k + 1])) b = e; } if (a < 0 || b < 0) continue;
+		pjob_t j = { a * NE + b, 1, 3, 1 }; uint8_t param[16]; size_t pn = pair_payload(&j, param);
+		char label[200]; snprintf(label, sizeof label, "H5/E1 %s || %s across the action-id wrap", entry_name(a), entry_name(b));
+		e1_spec_t s = { .harness = "c10.pair", .param = param, .nparam = pn, .bound = 1, .label = strdup(label) };
+		e1_explore(&s); for (int q = 0; q < 8; q++) sched += s.schedules_by_cost[q]; *states += s.distinct_outcomes; *transitions += s.choice_points; if (!s.exhaustive) *exhaustive = 0; }
+	  *execs += sched; rep_note("H5/E1 across the action-id wrap: bidib_set_train_speed || bidib_switch_point, %ld schedules (1 preemption)", sched); }
 	/* thorough: schedule exploration (1 preemption) of every (getter/reader/flush, high-level setter) pair */
 	if (thorough) {
 		long sched = 0, npairs = 0; int minb = 9;
